@@ -5,7 +5,7 @@ import io
 import itertools
 import os
 
-from mc import recs, refsel
+from mc import recs, refsel, selhist
 from mc.faults import drain
 from mc.obs import obs_list
 from mc.recs import rs
@@ -28,6 +28,11 @@ OTHERS = {
     "cons": "net.ipnetwork('10.0.0.0/8')", "cons-legacy-subnet": "net.ipv4.Subnet('10.0.0.0/8')", "cons-legacy-addr": "net.ipv4.Address('10.1.2.3')",
     "cons-ip": "net.ipaddress('10.1.2.3')", "cons-ip6net": "net.ipnetwork('::/0')", "type": "Type.string", "f-none": "r.none", "f-bytes": "r.raw", "str-empty": "''",
 }
+for _n in (8, 9, 16, 17, 64, 65, 257, 1025):
+    OTHERS["list-%d" % _n] = "[%s]" % ", ".join(str(i) for i in range(_n))
+    OTHERS["tuple-%d" % _n] = "(%s)" % ", ".join("'s%d'" % i for i in range(_n))
+    if _n in (9, 17, 65):
+        OTHERS["mixed-%d" % _n] = "[r.n, %s]" % ", ".join(str(i) if i % 2 else "'s%d'" % i for i in range(_n - 1))
 NONCONTAINER = {"int", "float", "none", "bool", "f-int", "f-float", "f-bool", "f-path", "f-ip", "f-none", "cons-ip", "cons-legacy-addr",
                 "f-int0", "f-path0", "f-float0", "f-bool0"}
 CONTEXTS = {
@@ -67,7 +72,7 @@ def make(how, expr):
 def other_class(k):
     if k in ("str", "f-str", "str-empty", "bytes", "f-bytes", "f-uri", "f-str0", "f-bytes0"):
         return "strlike"
-    if k in ("list", "tuple", "emptylist", "f-list", "f-list0"):
+    if k in ("list", "tuple", "emptylist", "f-list", "f-list0") or k.startswith(("list-", "tuple-", "mixed-")):
         return "seq"
     if k == "f-path0":
         return "f-path"
@@ -83,6 +88,8 @@ def other_class(k):
 
 
 def run_case(case):
+    if case["kind"] == "manydesc":
+        return selhist.run(case, "C08")
     if case["kind"] == "expr":
         return run_expr(case)
     if case["kind"] == "helper":
@@ -307,6 +314,7 @@ def cases(tier):
                   ("field_contains(r, ['zz'], [None], word_boundary=True)", "field_contains-none"), ("field_contains(r, ['zz'], [''])", "field_contains-none"),
                   ("field_equals(r, ['zz'], [None], nocase=False)", "field_equals-none"), ("field_regex(r, ['zz'], '')", "field_regex")):
         yield {"kind": "helper", "helper": hn, "expr": e, "must_be_false": True}
+    yield from selhist.cases(tier)
     L = 5 if tier == "thorough" else 4
     for k in range(1, L + 1):
         for seq in itertools.product("MNOF", repeat=k):
